@@ -982,4 +982,131 @@ theorem runRound_sub (cron : Cron) (w : World) (e : RoundEnv) :
     obtain ⟨g, _, hg⟩ := hc
     exact Or.inl (List.mem_filter.mp (List.mem_of_mem_take hg)).1
 
+/-! ### The queue life cycle with informer lag -/
+
+theorem Track.fresh_inv (name : String) : (Track.fresh name).inv = true := rfl
+
+theorem inv_start (t : Track) (hinv : t.inv = true) (hpre : (!t.stateMarked && !t.inFlight) = true) :
+    ({ t with mark := true, inFlight := true } : Track).inv = true := by
+  rcases t with ⟨n, m, s, a, i⟩
+  cases m <;> cases s <;> cases a <;> cases i <;> simp_all [Track.inv, Track.stateMarked]
+
+theorem inv_finish (t : Track) (ok : Bool) (hinv : t.inv = true) (hpre : t.inFlight = true) :
+    ({ t with api := t.api || ok, mark := t.mark && !completeUnmarks false ok, inFlight := false } : Track).inv = true := by
+  rcases t with ⟨n, m, s, a, i⟩
+  cases m <;> cases s <;> cases a <;> cases i <;> cases ok <;> simp_all [Track.inv, completeUnmarks]
+
+theorem inv_sync (t : Track) (hinv : t.inv = true) : ({ t with seen := t.api } : Track).inv = true := by
+  rcases t with ⟨n, m, s, a, i⟩
+  cases m <;> cases s <;> cases a <;> cases i <;> simp_all [Track.inv]
+
+theorem qstep_inv (ts : List Track) (s : QStep) (hinv : ∀ t ∈ ts, t.inv = true) (hpre : s.pre ts = true) :
+    ∀ t ∈ qstep false ts s, t.inv = true := by
+  intro t ht
+  cases s with
+  | start names =>
+    simp only [qstep, onNames, List.mem_map] at ht
+    obtain ⟨t0, h0, rfl⟩ := ht
+    simp only [QStep.pre, List.all_eq_true] at hpre
+    have hp := hpre t0 h0
+    split
+    · rename_i hc
+      simp only [hc, Bool.not_true, Bool.false_or] at hp
+      exact inv_start t0 (hinv t0 h0) hp
+    · exact hinv t0 h0
+  | finish names ok =>
+    simp only [qstep, onNames, List.mem_map] at ht
+    obtain ⟨t0, h0, rfl⟩ := ht
+    simp only [QStep.pre, List.all_eq_true] at hpre
+    have hp := hpre t0 h0
+    split
+    · rename_i hc
+      simp only [hc, Bool.not_true, Bool.false_or] at hp
+      exact inv_finish t0 ok (hinv t0 h0) hp
+    · exact hinv t0 h0
+  | sync names =>
+    simp only [qstep, onNames, List.mem_map] at ht
+    obtain ⟨t0, h0, rfl⟩ := ht
+    split
+    · exact inv_sync t0 (hinv t0 h0)
+    · exact hinv t0 h0
+  | appear name =>
+    simp only [qstep] at ht
+    split at ht
+    · exact hinv t ht
+    · rcases List.mem_append.mp ht with h | h
+      · exact hinv t h
+      · simp only [List.mem_singleton] at h
+        subst h
+        rfl
+
+theorem qrun_inv (steps : List QStep) :
+    ∀ ts : List Track, (∀ t ∈ ts, t.inv = true) → qrunOK false ts steps = true → ∀ t ∈ qrun false ts steps, t.inv = true := by
+  induction steps with
+  | nil => intro ts h _ t ht; exact h t ht
+  | cons s ss ih =>
+    intro ts h hok t ht
+    simp only [qrunOK, Bool.and_eq_true] at hok
+    exact ih (qstep false ts s) (qstep_inv ts s h hok.1) hok.2 t ht
+
+theorem inv_counted (t : Track) (h : t.inv = true) (hb : t.beingDeleted = true) : t.stateMarked = true := by
+  rcases t with ⟨n, m, s, a, i⟩
+  cases m <;> cases s <;> cases a <;> cases i <;> simp_all [Track.inv, Track.beingDeleted, Track.stateMarked]
+
+/-! ### More marks can only tighten the bound -/
+
+/-- the same nodes with (possibly) more of them marked -/
+def raiseMarks (extra : Node → Bool) (nodes : List Node) : List Node :=
+  nodes.map (fun n => { n with marked := n.marked || extra n })
+
+theorem raiseMarks_poolSize (extra : Node → Bool) (nodes : List Node) (p : String) :
+    poolSize (raiseMarks extra nodes) p = poolSize nodes p := by
+  unfold poolSize raiseMarks
+  rw [List.filter_map, List.length_map]
+  congr 1
+
+theorem raiseMarks_disrupting (extra : Node → Bool) (nodes : List Node) (p : String) :
+    alreadyDisrupting nodes p ≤ alreadyDisrupting (raiseMarks extra nodes) p := by
+  unfold alreadyDisrupting raiseMarks
+  rw [List.filter_map, List.length_map]
+  apply filter_length_mono
+  intro n _ h
+  simp only [Function.comp, isPoolNode] at h ⊢
+  simp only [Bool.and_eq_true, Bool.or_eq_true] at h ⊢
+  refine ⟨h.1, ?_⟩
+  rcases h.2 with h2 | h2
+  · exact Or.inl h2
+  · exact Or.inr (Or.inl h2)
+
+theorem poolBound_of_raised (hitOf : HitOf) (p : Pool) (nodes : List Node) (extra : Node → Bool) (now : Int)
+    (reason : String) (k : Nat) (h : poolBoundOK hitOf p (raiseMarks extra nodes) now reason k = true) :
+    poolBoundOK hitOf p nodes now reason k = true := by
+  unfold poolBoundOK at h ⊢
+  rw [raiseMarks_poolSize] at h
+  rcases Bool.or_eq_true _ _ |>.mp h with h0 | h1
+  · simp [h0]
+  · have := raiseMarks_disrupting extra nodes p.name
+    rw [Bool.or_eq_true]
+    right
+    exact leAllowed_mono _ _ _ (by omega) h1
+
+/-- the cluster state's view is the observer's view with more marks, as long as the invariant holds -/
+theorem withTrack_view (ts : List Track) (hinv : ∀ t ∈ ts, t.inv = true) (nodes : List Node) :
+    nodes.map (Node.withTrack Track.stateMarked ts) =
+      raiseMarks (fun n => ts.any (fun t => t.name == n.name && t.stateMarked)) (nodes.map (Node.withTrack Track.beingDeleted ts)) := by
+  unfold raiseMarks
+  rw [List.map_map]
+  apply List.map_congr_left
+  intro n _
+  simp only [Function.comp, Node.withTrack]
+  have himp : ts.any (fun t => t.name == n.name && t.beingDeleted) = true →
+      ts.any (fun t => t.name == n.name && t.stateMarked) = true := by
+    intro h
+    rw [List.any_eq_true] at h ⊢
+    obtain ⟨t, ht, hb⟩ := h
+    simp only [Bool.and_eq_true] at hb
+    exact ⟨t, ht, by simp only [Bool.and_eq_true]; exact ⟨hb.1, inv_counted t (hinv t ht) hb.2⟩⟩
+  cases hm : n.marked <;> cases hb : ts.any (fun t => t.name == n.name && t.beingDeleted) <;>
+    cases hs : ts.any (fun t => t.name == n.name && t.stateMarked) <;> simp_all
+
 end Karp.Budget
